@@ -1,11 +1,206 @@
 /-
-  Protocol ops of one area (see /verif/FRAMEWORK.md).  Not part of any theorem.  Core Lean only.
+  Protocol ops of the CLI area (see /verif/FRAMEWORK.md).  Not part of any theorem.  Core Lean only.
+
+  C14:  cli.hist <step>…            a history of runs over one fresh cache directory
+          step = (R <cmd> <args> <primary> <secs> <ofile> (<env>…) <early> <status> x<out> x<root>)
+               | (T <k> <kind>)      tamper with the entry that first appeared after step k
+        `<args> <primary> <secs>` tell the Go side how to run the real binary (ignored here);
+        `<env>` = `(var x<value>)…`: the values of the variables the payload tuples of the
+        GENERATED table `Gts.Gen.Cli` read directly (derived ones such as `filetype`, `guestSum`
+        are computed by the Go side with the repository's own functions and passed as data);
+        `<early> <status> x<out>`: the OBSERVED behaviour of the same invocation with `--no-cache`
+        (`x<out>` a digest standing for the output bytes); `x<root>` a digest of the primary input.
+        The protocol model `Gts.CacheProto.step` is instantiated with that observed `exec`, a
+        stand-in digest (FNV-1a 64) and the identity codec, and must predict, for every step,
+        `status:outdigest:ids` — ids = the entries present afterwards, each named by the index of
+        the step after which it first appeared.  Hit / miss / removal are thereby compared too.
+
+  C15:  cli.delete / cli.insert / cli.infix / cli.split / cli.rotate / cli.extract — see below.
 -/
 import Gts.Model.Sexp
+import Gts.Model.CacheProto
+import Gts.Model.Cli
+import Gts.Model.Locator
+import Gts.Gen.Cli
 namespace Gts
+open Gts.Cache Gts.CacheProto
+
+/-! ### C14 -/
+
+/-- FNV-1a, 64 bit, big-endian: the model's stand-in for SHA-1 (size 8) -/
+def standInDigest (b : List UInt8) : List UInt8 :=
+  let h : UInt64 := b.foldl (fun h c => (h ^^^ c.toUInt64) * 1099511628211) 14695981039346656037
+  (List.range 8).map fun i => (h >>> (UInt64.ofNat (8 * (7 - i)))).toUInt8
+
+structure HistRun where
+  cmd : String
+  env : List (String × List UInt8)
+  toFile : Bool
+  outcome : Outcome
+  root : List UInt8
+
+/-- the model's rendering of `encodePayload([]tuple{…})`: for every tuple of the generated table,
+its key and the values of the variables it reads directly (an injective encoding) -/
+def payloadOf (c : Gen.Cli.Command) (env : List (String × List UInt8)) : Except String (List UInt8) := do
+  let mut out : List UInt8 := []
+  for t in c.payload do
+    out := out ++ t.key.toUTF8.toList ++ [0]
+    for v in t.direct do
+      match env.lookup v with
+      | some x => out := out ++ v.toUTF8.toList ++ [0] ++ (toString x.length).toUTF8.toList ++ [0] ++ x
+      | none => throw ("NOENV:" ++ c.name ++ ":" ++ v)
+    out := out ++ [1]
+  pure out
+
+def histWorld : World (List UInt8 × Outcome) (List UInt8) where
+  H := standInDigest
+  d := 8
+  deflate := id
+  inflate := some
+  inflatePrefix := fun _ => []
+  exec := fun c _ => c.2
+  payload := fun c => c.1
+  content := id
+
+def tamper (kind : String) (f : List UInt8) : List UInt8 :=
+  match kind with
+  | "flip" => match f.reverse with
+    | [] => []
+    | c :: r => ((c ^^^ 1) :: r).reverse
+  | "hdr" => match f with
+    | [] => []
+    | c :: r => (c ^^^ 1) :: r
+  | "trunc" => f.take 10
+  | _ => []
+
+def decEnv? : Sexp → Option (List (String × List UInt8))
+  | .list xs => xs.mapM fun
+      | .list [.atom v, x] => do pure (v, ← decBytes? x)
+      | _ => none
+  | _ => none
+
+structure HistState where
+  σ : Store
+  names : List String            -- every entry name that may exist
+  first : List (String × Nat)    -- name ↦ index of the step after which it first appeared
+  answers : List String
+
+def HistState.note (s : HistState) (k : Nat) : HistState :=
+  { s with first := s.names.foldl (fun acc n =>
+      if (s.σ n).isSome && (acc.lookup n).isNone then acc ++ [(n, k)] else acc) s.first }
+
+def insertNat (x : Nat) : List Nat → List Nat
+  | [] => [x]
+  | y :: ys => if x ≤ y then x :: y :: ys else y :: insertNat x ys
+
+def HistState.ids (s : HistState) : String :=
+  let present := s.first.filter fun p => (s.σ p.1).isSome
+  ",".intercalate ((present.foldl (fun acc p => insertNat p.2 acc) []).map toString)
+
+def histStep (s : HistState) (k : Nat) : Sexp → Option HistState
+  | .list [.atom "R", .atom cmd, _, _, _, ofile, env, early, status, out, root] => do
+    let env ← decEnv? env
+    let status := (← decInt? status).toNat
+    let early ← decBool? early
+    let out ← decBytes? out
+    let root ← decBytes? root
+    let toFile ← decBool? ofile
+    match Gen.Cli.commands.find? (·.name == cmd) with
+    | none => pure { s with answers := s.answers ++ ["NOCMD:" ++ cmd] }
+    | some c =>
+      match payloadOf c env with
+      | .error e => pure { s with answers := s.answers ++ [e] }
+      | .ok p =>
+        -- `Commit()` is reached exactly by the runs that exit 0 (C14 `commit_last`)
+        let o : Outcome := ⟨out, status, status == 0 && !early, early⟩
+        let run : Run (List UInt8 × Outcome) (List UInt8) := ⟨(p, o), root, toFile, false, true, true⟩
+        let n := histWorld.entry run.cmd run.input
+        let (σ', obs) := step histWorld s.σ run
+        let s' : HistState := { s with σ := σ', names := if s.names.contains n then s.names else s.names ++ [n] }
+        let s' := s'.note k
+        pure { s' with answers := s'.answers ++ [s!"{obs.status}:{(encBytes obs.out).drop 1}:{s'.ids}"] }
+  | .list [.atom "T", j, .atom kind] => do
+    let j := (← decInt? j).toNat
+    let σ' : Store := match s.first.find? (·.2 == j) with
+      | some (n, _) => match s.σ n with
+        | some f => Store.set s.σ n (some (tamper kind f))
+        | none => s.σ
+      | none => s.σ
+    let s' := { s with σ := σ' }
+    pure { s' with answers := s'.answers ++ ["T:" ++ s'.ids] }
+  | _ => none
+
+def evalHist (steps : List Sexp) : Option String := do
+  let mut s : HistState := ⟨emptyStore, [], [], []⟩
+  let mut k := 0
+  for st in steps do
+    s ← histStep s k st
+    k := k + 1
+  pure (" ".intercalate s.answers)
+
+/-! ### C15
+
+  The binary's output is observed through the text format: the Go side parses it back with
+  `seqio`.  The model's records go through the same observation: every feature location is printed
+  and parsed again (`Gts/Model/LocText.lean`, tied by C06), FASTA output carries no features.
+
+    cli.delete  <Q> x<locator> <erase> <circ> <fasta>            → (<Q'>) <tops>
+    cli.insert  <Qhost> x<locator> <embed> <circ> <fasta> <Qguest> → (<Q'>) <tops>      (also cli.infix)
+    cli.split   <Q> x<locator> <circ> <fasta>                    → (<Q'>…) <tops>
+    cli.rotate  <Q> x<locator> <circ> <fasta>                    → (<Q'>) <tops>
+    cli.extract <Q> (x<locator>…) <invert> <circ> <fasta>        → (<Q'>…) <tops>
+
+  `<tops>`: one letter per output record, `L`inear / `C`ircular (`-` for FASTA).
+-/
+
+def rtLoc (l : Loc) : Loc :=
+  match parseLocation l.printB with
+  | .ok (l', []) => l'
+  | _ => l
+
+def observeSeq (fasta : Bool) (s : Seq) : Seq :=
+  if fasta then ⟨[], s.bytes⟩ else ⟨s.feats.map fun f => { f with loc := rtLoc f.loc }, s.bytes⟩
+
+def encObserved (fasta : Bool) (tops : List Bool) (ss : List Seq) : String :=
+  encList (ss.map fun s => encSeq (observeSeq fasta s)) ++ " " ++
+    (if fasta then "-" else String.ofList (tops.map fun c => if c then 'C' else 'L'))
+
+def locatorOf (s : Sexp) : Option (Seq → List Reg) := do
+  let d := asLocator (fun _ => true) (← decBytes? s)
+  pure (d.apply selectorMatch)
 
 def evalCli (op : String) (args : List Sexp) : Option String :=
   match op, args with
+  | "cli.hist", steps => evalHist steps
+  | "cli.delete", [q, loc, erase, circ, fasta] => do
+      let out := Cli.delete (← locatorOf loc) (← decBool? erase) (← decSeq? q)
+      pure (encObserved (← decBool? fasta) [← decBool? circ] [out])
+  | "cli.insert", [q, loc, embed, circ, fasta, g] => do
+      let out := Cli.insert (← locatorOf loc) (← decBool? embed) (← decSeq? q) (← decSeq? g)
+      pure (encObserved (← decBool? fasta) [← decBool? circ] [out])
+  | "cli.infix", [q, loc, embed, circ, fasta, g] => do
+      let out := Cli.insert (← locatorOf loc) (← decBool? embed) (← decSeq? q) (← decSeq? g)
+      pure (encObserved (← decBool? fasta) [← decBool? circ] [out])
+  | "cli.split", [q, loc, circ, fasta] => do
+      let l ← locatorOf loc
+      let s ← decSeq? q
+      let circ ← decBool? circ
+      let fasta ← decBool? fasta
+      -- no located region: the record is written as it is (topology kept); else every piece is linear
+      if (l s).isEmpty then pure (encObserved fasta [circ] [s])
+      else
+        let outs := Cli.split l circ s
+        pure (encObserved fasta (outs.map fun _ => false) outs)
+  | "cli.rotate", [q, loc, _, fasta] => do
+      let out := Cli.rotate (← locatorOf loc) (← decSeq? q)
+      pure (encObserved (← decBool? fasta) [true] [out])
+  | "cli.extract", [q, .list locs, inv, _, fasta] => do
+      let ls ← locs.mapM locatorOf
+      let inv ← decBool? inv
+      let s ← decSeq? q
+      let outs := Cli.extract ls inv s
+      let fasta ← decBool? fasta
+      pure (encObserved fasta (outs.map fun _ => false) outs)
   | _, _ => none
 
 end Gts
